@@ -33,6 +33,16 @@ def compute_signature(
         if isinstance(ufl_object, ufl.Form):
             kind = "form"
             object_signature += ufl_object.signature()
+            # The UFL signature renders arrays in the integral metadata with
+            # str(), i.e. rounded and, for long arrays, elided. Custom
+            # quadrature rules must enter the signature exactly.
+            for integral in ufl_object.integrals():
+                metadata = integral.metadata()
+                for key in ("quadrature_points", "quadrature_weights"):
+                    if key in metadata:
+                        _array = np.ascontiguousarray(metadata[key], dtype=np.float64)
+                        object_signature += key + str(_array.shape)
+                        object_signature += hashlib.sha1(_array.tobytes()).hexdigest()
         elif isinstance(ufl_object, tuple) and isinstance(ufl_object[0], ufl.core.expr.Expr):
             expr = ufl_object[0]
             points = ufl_object[1]
